@@ -8,7 +8,7 @@ from vf.spec import responses as R
 ID = "C04"
 LEVEL = "exploration"
 TECHNIQUE = "deviation-bounded exhaustive enumeration of standards-conformant responses produced by independent encoders (all field values over their alphabets, descriptor counts 0..3, with/without trailing buffer space); each decoded dictionary compared key by key with the encoded values"
-RULE = ("per parsed format, responses built by vf/spec/responses.py: every field over its whole alphabet one at a time from the all-zero and the "
+RULE = ("fixed-layout VPD pages 86h/B0h/B1h/B2h/B3h with every PAGE LENGTH from 0 to the full layout in a buffer whose tail holds stale bytes (A5h / FFh): fields within the page as sent, fields beyond it not reported; per parsed format, responses built by vf/spec/responses.py: every field over its whole alphabet one at a time from the all-zero and the "
         "all-ones baseline (quick), pairs of fields too (thorough); descriptor lists with 0..3 entries (x 0..3 inner entries) and with 10,11,12,16,17,32,33 entries (count boundaries), each with and "
         "without trailing zero buffer space; designators of 9 kinds x NAA 2/3/5/6 x EUI-64 8/12/16; TransportIDs of 5 protocols; mode data with "
         "0/1/2 block descriptors x 4 pages; READ CD over 15 sector layouts x C2 {0,1,2} x sub-channel {0,2,4} x 0..2 sectors. "
@@ -438,7 +438,38 @@ def readcd_via_facade(case, data, exp, fmt):
     return out
 
 
+def run_vpd_short(page, plen, tail):
+    """a fixed-layout VPD page of a device built to an older standard: PAGE LENGTH shorter than the layout the library knows, the rest
+    of the data-in buffer holding whatever was there before (stale bytes).  Fields that lie within the page are what the device sent;
+    fields that lie wholly beyond PAGE LENGTH are not reported (0 / absent) - nothing beyond the page is read"""
+    fields, size = R.VPD_FIXED[page]
+    ones = {k: (1 << w) - 1 for (k, b, msb, w) in fields}
+    full = R.vpd_fixed(page, ones)
+    buf = bytearray(full[:4 + plen]) + bytes([tail]) * (size - 4 - plen + 8)
+    buf[2:4] = plen.to_bytes(2, "big")
+    Inq = lib("Inquiry")
+    try:
+        d = Inq.unmarshall_datain(bytearray(buf), evpd=1)
+    except Exception as e:   # noqa: BLE001
+        return [("vpd_short/raises", "VPD page %02Xh with PAGE LENGTH %d in a buffer with a stale tail: raised %s: %s" % (page, plen, type(e).__name__, e))]
+    out = []
+    end = 4 + plen
+    for (k, b, msb, w) in fields:
+        first, last = b, b + (w - 1 - msb + 7) // 8 if w > msb + 1 else b
+        last = b + max(0, (w - (msb + 1) + 7) // 8)
+        if first >= end:
+            if d.get(k):
+                out.append(("vpd_short/beyond_page/%02x" % page, "VPD page %02Xh with PAGE LENGTH %d (tail %02Xh): %s lies beyond the page and is reported as %#x"
+                            % (page, plen, tail, k, d.get(k))))
+        elif last < end:
+            if d.get(k) != ones[k]:
+                out.append(("vpd_short/within_page/%02x" % page, "VPD page %02Xh with PAGE LENGTH %d: %s = %r, device sent %#x" % (page, plen, k, d.get(k), ones[k])))
+    return out[:3]
+
+
 def run_case(case, obs=None):
+    if case[0] == "vpd_short":
+        return run_vpd_short(case[1], case[2], case[3])
     if case[0] == "aba":
         return run_aba_star(case[1], case[2] if case[2] and isinstance(case[2][0], list) else [case[2]])
     fmt, data, exp, dec = build(case)
@@ -569,7 +600,7 @@ def run_aba_star(case_a, others):
 def partitions(tier):
     # one partition (= one freshly forked process) per (group, reference response A)
     return [["aba", g, i] for g in ABA_GROUPS for i in range(ABA_MAX)] + [[n] for n in ("inquiry_std", "vpd86", "vpdb0", "vpdb1", "vpdb2", "vpdb3", "vpd_lists", "vpd83", "vpd89", "mode6", "mode10",
-                          "readcap", "getlbastatus", "reportluns", "rtpg", "reportpriority", "res", "prin", "discinfo", "readcd")]
+                          "readcap", "getlbastatus", "reportluns", "rtpg", "reportpriority", "res", "prin", "discinfo", "readcd", "vpd_short")]
 
 
 def gen(part, tier):
@@ -793,6 +824,21 @@ def run_partition(part, tier, seed):
         acc.outcome((repr(a), tuple(x for x, _ in v)))
         acc.add("aba_pairs", len(others))
         acc.evaluations += len(others)
+        return acc
+    if part[0] == "vpd_short":
+        for page, (fields, size) in sorted(R.VPD_FIXED.items()):
+            for plen in range(0, size - 4 + 1):
+                for tail in (0xA5, 0xFF):
+                    case = ["vpd_short", page, plen, tail]
+                    acc.case(case, nontrivial=True, key=repr(case))
+                    try:
+                        v = run_case(case)
+                    except Exception:
+                        import traceback
+                        v = [("harness_error/vpd_short", traceback.format_exc()[-600:])]
+                    for kk, w in v:
+                        acc.violation(kk, w, case)
+                    acc.outcome((repr(case), tuple(x for x, _ in v)))
         return acc
     for case in gen(part, tier):
         obs = []
